@@ -1439,6 +1439,11 @@ impl UntypedExpr {
                     let e = TypeErrorEnum::InvalidRange(*from, *to);
                     return Err(vec![Some(TypeError::new(e, meta))]);
                 }
+                // the last element must be representable by the element type:
+                if num_ty.max().is_some_and(|max| to - 1 > max) {
+                    let e = TypeErrorEnum::InvalidRange(*from, *to);
+                    return Err(vec![Some(TypeError::new(e, meta))]);
+                }
                 let ty = Type::Array(Box::new(Type::Unsigned(*num_ty)), (to - from) as usize);
                 (ExprEnum::Range(*from, *to, *num_ty), ty)
             }
@@ -2594,6 +2599,19 @@ pub(crate) fn constrain_type(expr: &mut TypedExpr, expected: &Type) -> Result<()
             constrain_type(elem, elem_ty)?;
             if let Type::Array(actual, _) | Type::ArrayConst(actual, _) = &mut expr.ty {
                 overwrite_ty_if_necessary(actual, elem_ty);
+            }
+        }
+        (
+            ExprEnum::Range(from, to, num_ty @ UnsignedNumType::Unspecified),
+            Type::Array(elem_ty, _) | Type::ArrayConst(elem_ty, _),
+        ) => {
+            // the elements are lowered with the number type stored in the range:
+            if let Type::Unsigned(expected) = elem_ty.as_ref() {
+                if expected.max().is_some_and(|max| *to > *from && *to - 1 > max) {
+                    let e = TypeErrorEnum::InvalidRange(*from, *to);
+                    return Err(vec![Some(TypeError::new(e, expr.meta))]);
+                }
+                *num_ty = *expected;
             }
         }
         (ExprEnum::TupleLiteral(elems), Type::Tuple(elem_tys)) if elems.len() == elem_tys.len() => {
